@@ -21,7 +21,7 @@ LEVEL_TEXT = (
     "only when selected (or while a default-open gate is undecided), never in its gate's own step, that invalid decisions fail the run, and "
     "for DAG programs that exactly the selected branches ran."
 )
-LEVEL_NOTE = "pruning key = (names present, per-input version comparison signs, routing decisions, executed set, monitor's decision view); justified in DESIGN 3.3, cross-checked unpruned in the thorough tier"
+LEVEL_NOTE = "pruning key = (names present, per-input version comparison signs, routing decisions, executed set, monitor's decision view); justified in DESIGN 3.3, cross-checked unpruned in the thorough tier; every program on both construction paths (node classes and public decorators); a waiting gate whose awaited names exist counts as runnable"
 RULE = "programs x runners x all env answers (gate decisions, same/new values), async completion orders within the deviation bound; states = abstract scheduler states reached; transitions = supersteps executed"
 ASSUMPTIONS = ["the monitor demands only what the statement says; the implementation's extra clearing of stale decisions is allowed", "horizon = max_iterations; runs cut by the horizon are judged for safety only"]
 
